@@ -38,6 +38,7 @@ def judgeC11 (j : Json) : R Verdict := do
       if model.length != real.length || sortedBytes model != sortedBytes real then corr := corr ++ ["bytes-up-to-order"]
     else if model != real then corr := corr ++ ["bytes"]
     -- the model reader on the real bytes gives back the tree that was encoded
+    tags := tags ++ [if Wire.bytesHyps tx then "wire-theorem-hyps-hold" else "wire-theorem-hyps-fail"]
     if !(tx.slots.all Wire.Shaped) then corr := corr ++ ["shaped"]
     else if !unordered then
       match Wire.fromBytes real with
